@@ -57,7 +57,8 @@ def gen(rng, tier):
         n = rng.choice([1, 2, 3, 5])
         ls = ";".join(link(rng, lc=rng.choice([0, 0, 1])) for _ in range(n))
         a, b = rng.choice([0, 1, 3, 7]), rng.choice([0, 2, 5])
-        for trio in ((a, rng.choice([256, 300, 1000]), a), (a, b, a), (a, 255, b), (b, a, 256)):
+        hi = rng.choice([253, 254, 255])
+        for trio in ((a, rng.choice([256, 300, 1000]), a), (a, b, a), (a, 255, b), (b, a, 256), (a, hi, hi), (a, 255, 255), (hi, hi, a)):
             yield "agg3 %d %s %s %d %d %d" % (rng.choice(G.SUPPORTED), G.hx(G.imprint(rng)), ls, trio[0], trio[1], trio[2])
     # 1c. RIPEMD-160 (the driver has no implementation of it): the reference root is computed here with Python's
     for i in range(40 if not big else 400):
